@@ -57,7 +57,7 @@ func init() {
 	}
 	Plans["C05"] = map[string][]Step{
 		"quick":    append(append([]Step{}, callQuick...), Step{Tier: "namedcycle", Bound: 1}),
-		"thorough": append(append([]Step{}, callThorough...), Step{Tier: "namedcycle", Bound: 2}),
+		"thorough": append(append([]Step{}, callThorough...), Step{Tier: "namedcycle", Bound: 1}),
 	}
 	for _, p := range []string{"C02", "C13"} {
 		Plans[p] = map[string][]Step{
@@ -85,7 +85,7 @@ func init() {
 
 func init() {
 	Plans["C08"] = map[string][]Step{
-		"quick":    {{Tier: "redef", Size: 0, Bound: 1}, {Tier: "redef", Size: 1, Bound: 0}, {Tier: "redefptr", Bound: 0}, {Tier: "alias-C08", Size: 4}, {Tier: "redefzero", Size: 1, Bound: 0}},
-		"thorough": {{Tier: "redef", Size: 0, Bound: 1}, {Tier: "redef", Size: 1, Bound: 1}, {Tier: "redef", Size: 2, Bound: 0}, {Tier: "redefptr", Bound: 1}, {Tier: "alias-C08", Size: 5}, {Tier: "redefzero", Size: 1, Bound: 0}},
+		"quick":    {{Tier: "redef", Size: 0, Bound: 1}, {Tier: "redef", Size: 1, Bound: 0}, {Tier: "redefptr", Bound: 0}, {Tier: "alias-C08", Size: 4}, {Tier: "redefzero", Size: 1, Bound: 0}, {Tier: "redefprov", Size: 1, Bound: 0}},
+		"thorough": {{Tier: "redef", Size: 0, Bound: 1}, {Tier: "redef", Size: 1, Bound: 1}, {Tier: "redef", Size: 2, Bound: 0}, {Tier: "redefptr", Bound: 1}, {Tier: "alias-C08", Size: 5}, {Tier: "redefzero", Size: 1, Bound: 0}, {Tier: "redefprov", Size: 1, Bound: 0}},
 	}
 }
